@@ -734,7 +734,7 @@ func (e *Engine) RunHarness(fn *ssa.Function, keepModels int) *HarnessResult {
 					}
 					hr.Samples = append(hr.Samples, PathSample{Decisions: pr.Decisions, Status: pr.Status, Model: pr.Model, Observed: obs, Oblig: pr.Obligations})
 				}
-				if (pr.Status == "ok" || pr.Status == "panic") && keepModels > 0 {
+				if (pr.Status == "ok" || pr.Status == "panic") && keepModels > 0 && len(pr.Violations) == 0 {
 					// reservoir sample (seeded) over all completed paths
 					eligible++
 					pm := PathModel{Decisions: pr.Decisions, Status: pr.Status, Model: pr.Model, Observed: pr.Observed}
